@@ -8,7 +8,7 @@
    serving s m  = some filesystem instance of the manager has m mounted;  recorded s m = the store has a record for m;
    tracked s m  = the manager's table (fsMap) has an owner for m. *)
 From Coq Require Import List Arith Bool.
-From SV Require Import Model.Fusemgr Proofs.Fusemgr.
+From SV Require Import Model.Fusemgr Proofs.Fusemgr Model.FusemgrSub Proofs.FusemgrSub.
 Import ListNotations.
 
 (* Clause 1. While the store is open: everything served is recorded; and once initialised, unless the last
@@ -188,7 +188,121 @@ Theorem C17_observations_are_steps :
 Proof. intros g e os. exact (run_trace os (init g e)). Qed.
 Print Assumptions C17_observations_are_steps.
 
+(* Which labels are "the recorded labels" of clause 3: every Mount that answers OK (also the one that finds the mountpoint
+   already mounted and mounts nothing) leaves the record (labels of THIS request, current configuration). The record is thus
+   the latest acknowledged Mount request, which for a repeated Mount with other labels is not what the instance serves;
+   clause 3 speaks of the recorded labels and holds as stated (C17_restart_remounts). Likewise the configuration field of a
+   record is the latest configuration an Init got as far as storing, which after an Init that failed in a ConfigFunc or in
+   NewFileSystem is not the one the serving instance was built from; nothing reads that field back (restore builds every
+   mount from the Init's own configuration), and "new mounts use the new configuration" is about a re-initialisation that
+   succeeded (C17_new_mounts_use_new_config). Neither observation contradicts a clause of C17. *)
+Theorem C17_record_is_last_acknowledged_mount :
+  forall s m l ok, closed s = false -> fst (snd (step s (Mount m l ok))) = ROk ->
+    exists c, cfg s = Some c /\ find (store (fst (step s (Mount m l ok)))) m = Some (l, c)
+              /\ tracked (fst (step s (Mount m l ok))) m.
+Proof. exact mount_ok_records. Qed.
+Print Assumptions C17_record_is_last_acknowledged_mount.
+
+(* ===== Sub-step machine (Model/FusemgrSub.v): requests decomposed into gate+fsMap.Load / filesystem call /
+   fsMap update / fusestore write, interleaved as the locks permit (any number of Mount/Check/Unmount in flight under
+   the shared lock; Init and Close only when none is), manager crashes between any two sub-steps.
+   [cinit g true e] = the code with the per-mountpoint mutex of patches/C17-fix-2.diff; [cinit g false e] = as found. ===== *)
+
+(* Clause 1 for every interleaving and every crash point: while the store is open, for every mountpoint that no Mount /
+   Unmount in flight is working on (at a quiescent point: every mountpoint), served implies recorded, and once
+   initialised without a reported error recorded implies served. *)
+Theorem C17_sub_store_equals_live :
+  forall g e os m, let s := sexec (cinit g true e) os in
+    closed (base s) = false -> locked (thr s) m = false ->
+    (serving (base s) m -> recorded (base s) m)
+    /\ (stat (base s) = Ready -> ierr (base s) = false -> recorded (base s) m -> serving (base s) m).
+Proof. intros g e os m s Cl Lk. exact (free_live s m (sreach_sinv g e os) (locked_false _ _ Lk) Cl). Qed.
+Print Assumptions C17_sub_store_equals_live.
+
+(* Clause 2 ("not mounted a second time") at EVERY point of every interleaving: no instance has a mountpoint mounted
+   twice and no two instances have the same mountpoint mounted. *)
+Theorem C17_sub_never_mounted_twice :
+  forall g e os m, let s := sexec (cinit g true e) os in
+    (forall i, occ m (mnt_of (base s) i) <= 1)
+    /\ (forall i j, 0 < occ m (mnt_of (base s) i) -> 0 < occ m (mnt_of (base s) j) -> i = j).
+Proof.
+  intros g e os m s. split; [intros i; exact (single_mount s m i (sreach_sinv g e os))|].
+  intros i j. exact (single_owner s m i j (sreach_sinv g e os)).
+Qed.
+Print Assumptions C17_sub_never_mounted_twice.
+
+(* A crash at ANY sub-step: every request dies, nothing is served, the store is exactly what the last committed
+   transaction left, the manager is not ready. *)
+Theorem C17_sub_crash_anywhere :
+  forall s, let s' := fst (sstep s SRestart) in
+    busy (thr s') = false /\ store (base s') = store (base s) /\ closed (base s') = false
+    /\ fsmap (base s') = [] /\ (forall m i, occ m (mnt_of (base s') i) = 0) /\ stat (base s') = WaitInit.
+Proof. exact crash_anywhere. Qed.
+Print Assumptions C17_sub_crash_anywhere.
+
+(* Clause 3 from any crash point (requests may be between "mounted" and "recorded", or between "unmounted" and
+   "record removed"): the Init after the crash is never blocked, it is the sequential Init on the kept store; it
+   re-mounts a prefix of the records in store order with their recorded labels, and all of them if it answers OK. *)
+Theorem C17_sub_restart_remounts :
+  forall g e os c sc, let s := sexec (cinit g true e) os in
+    closed (base s) = false ->
+    let b0 := fst (step (base s) Restart) in
+    let n := length (insts (base s)) in
+    let s1 := fst (step b0 (Init c IRun sc)) in
+    let r := fst (snd (step b0 (Init c IRun sc))) in
+    let cs := snd (snd (step b0 (Init c IRun sc))) in
+    sstep (fst (sstep s SRestart)) (SInit c IRun sc) = (mkC s1 (map (fun _ => PDone) (thr s)) (mplock s), (SFin r, cs))
+    /\ store s1 = store (base s)
+    /\ (exists k, cs = firstn k (map (rcall n) (store (base s))))
+    /\ (r = ROk -> cs = map (rcall n) (store (base s))
+                 /\ forall m l c0, find (store (base s)) m = Some (l, c0) ->
+                      find (fsmap s1) m = Some n /\ In (m, l) (mnt_of s1 n) /\ cfg_of s1 n = Some c).
+Proof.
+  intros g e os c sc s Cl b0 n s1 r cs. split.
+  - rewrite (sstep_restart_init s c sc). unfold s1, r, cs, b0.
+    destruct (step (fst (step (base s) Restart)) (Init c IRun sc)) as [b' [r' cs']]. reflexivity.
+  - exact (restart_init_sorted (base s) c sc (S_sorted s (sreach_sinv g e os)) Cl).
+Qed.
+Print Assumptions C17_sub_restart_remounts.
+
+(* The observations compared with the real code on every run are the sub-step results of these states. *)
+Theorem C17_sub_observations_are_steps :
+  forall g lk e os, srun (cinit g lk e) os = (sexec (cinit g lk e) os, strace (cinit g lk e) os).
+Proof. intros. exact (srun_trace os (cinit g lk e)). Qed.
+Print Assumptions C17_sub_observations_are_steps.
+
+(* The code as found (no per-mountpoint mutex; witnesses reproduced on the real code, replays/C17-F19b/F19c):
+   two Mounts of one mountpoint begun together mount it twice ... *)
+Theorem C17_sub_never_mounted_twice_refuted_without_mutex :
+  exists os, occ 1 (mnt_of (base (sexec (cinit true false []) os)) 0) = 2.
+Proof.
+  exists [SInit 0 IRun []; BMount 1 1; BMount 1 2; Adv 0 true; Adv 1 true; Adv 0 true; Adv 1 true; Adv 0 true; Adv 1 true].
+  vm_compute. reflexivity.
+Qed.
+Print Assumptions C17_sub_never_mounted_twice_refuted_without_mutex.
+
+(* ... and a Mount that begins while an Unmount of the same mountpoint is between fs.Unmount and fsMap.Delete
+   answers OK and leaves, at a quiescent point after an Init without error, a record nobody serves. *)
+Theorem C17_sub_store_equals_live_refuted_without_mutex :
+  exists os, let s := sexec (cinit true false []) os in
+    busy (thr s) = false /\ closed (base s) = false /\ stat (base s) = Ready /\ ierr (base s) = false
+    /\ recorded (base s) 1 /\ ~ serving (base s) 1.
+Proof.
+  exists [SInit 0 IRun []; BMount 1 1; Adv 0 true; Adv 0 true; Adv 0 true; BUnmount 1; Adv 1 true; BMount 1 2;
+          Adv 1 true; Adv 1 true; Adv 2 true].
+  vm_compute. repeat split; try discriminate.
+  intros [i H]. destruct i as [|[|i]]; vm_compute in H; inversion H.
+Qed.
+Print Assumptions C17_sub_store_equals_live_refuted_without_mutex.
+
 (* ---- non-vacuity ---- *)
+(* with the mutex: two requests in flight on different mountpoints, a third one on a held mountpoint does not begin *)
+Example C17_sub_nonvacuous :
+  let s := sexec (cinit true true [0]) [SInit 0 IRun []; BMount 1 1; BMount 2 2; Adv 0 true; BMount 1 2; BUnmount 1] in
+  thr s = [PMMap 1 1 0; PMCall 2 2 0] /\ locked (thr s) 1 = true /\ locked (thr s) 3 = false
+  /\ closed (base s) = false /\ occ 1 (mnt_of (base s) 0) = 1 /\ fsmap (base s) = [].
+Proof. vm_compute. repeat split. Qed.
+
 (* snapshotter restart with live mounts and a new configuration, then manager restart with a failing restore:
    mounts 1,2 made under config 0 by instance 0; re-Init with config 1 builds instance 1 and mounts nothing;
    mount 3 goes to instance 1 and is recorded with config 1; after the restart Init restores 1, fails on 2,
